@@ -20,7 +20,7 @@ Definition cli_body (t:positive) (argv:list (list N)) : Comp value :=
   v <- force (VThunk t) ;; v2 <- cli_apply v argv ;; v3 <- cli_exec v2 ;; cli_status v3.
 
 Definition many_error (asts:list ast) : error := {| e_spans := map ast_span asts; e_vals := [] |}.
-Definition world0 (stdin:list (list N)) : world := {| w_in := stdin; w_out := [] |}.
+Definition world0 (stdin:list (list N)) : world := (world_start stdin []).
 Definition cli_run (fuel:nat) (asts:list ast) (argv:list (list N)) (stdin:list (list N)) : out :=
   match asts with
   | [] => Done heap0 (world0 stdin) (inl (VInt 0)) 0
